@@ -246,11 +246,15 @@ func (session *PubSession) dispose(err error) error {
 	session.disposeOnce.Do(func() {
 		Log.Infof("[%s] lifecycle dispose gb28181 PubSession. err=%+v", session.UniqueKey(), err)
 		if session.isTcpFlag {
-			if session.tcpConn == nil {
+			if session.listener == nil {
 				retErr = base.ErrSessionNotStarted
 				return
 			}
-			retErr = session.tcpConn.Close()
+			// 关闭listener，RunLoop（Accept）才会返回；已经建立的连接也一并关闭
+			retErr = session.listener.Close()
+			if session.tcpConn != nil {
+				_ = session.tcpConn.Close()
+			}
 		} else {
 			if session.udpConn == nil {
 				retErr = base.ErrSessionNotStarted
